@@ -5,11 +5,13 @@ use aelys_syntax::{BinaryOp, Expr, ExprKind, TokenKind};
 impl Parser {
     // calls and member access (highest precedence after atoms)
     pub(super) fn call(&mut self) -> Result<Expr> {
+        let outer = self.chain_begin();
+        let mut links = 0;
         let mut expr = self.primary()?;
 
         loop {
             if self.match_token(&TokenKind::LParen) {
-                self.chain_link()?;
+                self.chain_link(&mut links)?;
                 let mut args = Vec::new();
 
                 if !self.check(&TokenKind::RParen) {
@@ -32,7 +34,7 @@ impl Parser {
                     span,
                 );
             } else if self.match_token(&TokenKind::Dot) {
-                self.chain_link()?;
+                self.chain_link(&mut links)?;
                 let member = self.consume_identifier("member name")?;
                 let span = expr.span.merge(self.previous().span);
 
@@ -44,7 +46,7 @@ impl Parser {
                     span,
                 );
             } else if self.match_token(&TokenKind::LBracket) {
-                self.chain_link()?;
+                self.chain_link(&mut links)?;
                 let index_or_range = self.parse_index_or_range()?;
                 self.consume(&TokenKind::RBracket, "]")?;
                 let span = expr.span.merge(self.previous().span);
@@ -111,6 +113,7 @@ impl Parser {
             }
         }
 
+        self.chain_end(outer, links);
         Ok(expr)
     }
 
